@@ -376,7 +376,11 @@ def onCloseFrame (s : S) (code : Option Nat) (reasonRaw : Option Bytes) : S × B
       if s.cfg.echoClose then
         sendCloseFrame s s.remoteCloseCode (s.remoteCloseReason.map (encodeTruncate · 123)) true
       else sendCloseFrame s (some 1000) none true
-    if s.cfg.isServer then (dropConnection s false, false) else (s, false)
+    if s.cfg.isServer then (dropConnection s false, false)
+    else if s.cfg.serverDropTimeout > 0 then
+      let (s, t) := s.timer (s.now + s.cfg.serverDropTimeout)
+      ({ s with tServerDrop := some t }, false)
+    else (s, false)
   | .closed => ({ s with wasClean := false }, false)
   | .connecting => (s.emit (.raised .exception), true)
 
@@ -638,10 +642,11 @@ def sendMessage (s : S) (pl : Bytes) (binary : Bool) (fragmentSize : Option Nat 
 /-- `sendPreparedMessage(factory.prepareMessage(payload, isBinary))`: the frame is built at prepare time
 with `applyMask = not isServer` and one key -/
 def sendPrepared (s : S) (pl : Bytes) (binary : Bool) : S :=
+  -- the key is drawn when the message is prepared (factory.prepareMessage), before the state check of the send
   let (s, key) := if !s.cfg.isServer then ({ s with keyCtr := s.keyCtr + 1 }, some (keyOf s.keyCtr)) else (s, none)
   match encodeFrame true 0 (if binary then 2 else 1) key true pl with
   | none => s.emit (.raised .exception)
-  | some raw => sendData s raw
+  | some raw => if s.st ≠ .opened then s.emit (.raised .disconnected) else sendData s raw
 
 /-! ## streaming send API -/
 
@@ -740,7 +745,10 @@ def fire (s : S) : TK → S
       dropConnection { s with wasClean := false, notClean := some .serverDropTimeout } true
     else s
   | .pingTimeout =>
-    dropConnection { s with wasClean := false, notClean := some .pingTimeout, tPingTimeout := none } true
+    let s := { s with tPingTimeout := none }
+    if s.st ≠ .closed then
+      dropConnection { s with wasClean := false, notClean := some .pingTimeout } true
+    else s
   | .pingNext => sendAutoPing s
   | .sendTick => sendTick { s with tSendTick := none }
 
